@@ -1,6 +1,7 @@
 package main
 
 import (
+	"go/token"
 	"fmt"
 	"sort"
 	"strings"
@@ -383,6 +384,54 @@ func runC10(c *Check) {
 			}
 		}
 	}
+	// ---- R7: reload completeness
+	c.Doc("C10-R7", "EO: the reload consumes the whole result stream (the loop over the stored entries is left only when the stream is exhausted or through an error return) and appends every entry that decoded.")
+	{
+		g := BuildECFG(p, load, ExpandOpts{MaxDepth: 0})
+		c.NoteGraph(g)
+		fn := fnName(load)
+		isRecv := func(n *Node) bool {
+			u, ok := n.In.(*ssa.UnOp)
+			return ok && u.Op == token.ARROW && u.CommaOk
+		}
+		recvs := g.Select(isRecv)
+		gotOne := g.Select(EdgeWhere(func(t *Term, pol bool, n *Node) bool {
+			t, pol = normFact(t, pol)
+			if !pol || t.Op != "extract" || t.Name != "1" {
+				return false
+			}
+			u, ok := t.Args[0].V.(*ssa.UnOp)
+			return ok && u.Op == token.ARROW && u.CommaOk
+		}))
+		apps := g.Select(func(n *Node) bool {
+			if CallName(n) != "append" {
+				return false
+			}
+			a := ArgTerm(n, 0)
+			return a != nil && a.Contains(func(x *Term) bool { return x.Op == "field" && x.Name == "queue" })
+		})
+		if len(recvs) != 1 || len(gotOne) == 0 || len(apps) == 0 {
+			c.Unk("C10-R7", "Load ⟂ anchors", fn, "", fmt.Sprintf("anchor lost: %d stream receives, %d element edges, %d appends to the queue", len(recvs), len(gotOne), len(apps)))
+		} else {
+			var okExits []*Node
+			for _, x := range g.Exits {
+				if g.ExitClass(x) != rcA {
+					okExits = append(okExits, x)
+				}
+			}
+			c.Decide("C10-R7", "Load ⟂ consumes-the-whole-stream", fn, p.InstrPos(recvs[0].In), "after an entry was received the reload returns successfully only through the exhausted stream",
+				"the reload can stop before the stored entries are exhausted and still report success: the remaining accepted batches are invisible, their keys are not counted when the key state is restored (new batches overwrite them), and they reappear out of order after another restart", g,
+				g.PathAvoiding(gotOne, nodeSet(okExits), isRecv))
+			decoded := g.Select(ErrNilEdge(func(t *Term) bool { return t.IsCall("proto.Unmarshal") }))
+			if len(decoded) == 0 {
+				c.Unk("C10-R7", "Load ⟂ decoded-entry-is-queued", fn, "", "anchor lost: decode-success edge")
+			} else {
+				c.Decide("C10-R7", "Load ⟂ decoded-entry-is-queued", fn, p.InstrPos(decoded[0].In), "every entry that decoded is appended before the next one is read",
+					"an entry that decoded can be passed over without being queued", g, g.PathAvoiding(decoded, orPred(isRecv, nodeSet(okExits)), nodeSet(apps)))
+			}
+		}
+	}
+	c.MinInstances("C10-R7", 2)
 	c.MinInstances("C10-R1", 2)
 	c.MinInstances("C10-R2", 1)
 	c.MinInstances("C10-R3", 1)
